@@ -301,6 +301,20 @@ theorem E_interchangeable (gam : K → K → K) (A1 A2 : V3 K) (nn nx ny nz : K)
     · simp only [EofQuery, Query.toA12?, xyToPosApi, hok, if_true, Option.bind_some,
         i2 _ (a12ToPos_inplane A1 A2 nn hnn a), hp, Option.map_some]
 
+/-- fractional coordinates relative to another basis of the same plane (`a1vect=`, `a2vect=` keywords):
+    with `B1 = m11 A1 + m12 A2`, `B2 = m21 A1 + m22 A2` the query `(a1, a2)` is the surface's own
+    `(a1 m11 + a2 m21, a1 m12 + a2 m22)` and is never refused. -/
+theorem E_other_basis (A1 A2 : V3 K) (h : V3.cross A1 A2 ≠ v3zero) (m11 m12 m21 m22 : K) (a : K × K) :
+    otherBasisToA12? A1 A2 (V3.smul m11 A1 + V3.smul m12 A2) (V3.smul m21 A1 + V3.smul m22 A2) a
+      = some (a.1 * m11 + a.2 * m21, a.1 * m12 + a.2 * m22) := by
+  have e : a12ToPos (V3.smul m11 A1 + V3.smul m12 A2) (V3.smul m21 A1 + V3.smul m22 A2) a
+      = a12ToPos A1 A2 (a.1 * m11 + a.2 * m21, a.1 * m12 + a.2 * m22) := by
+    simp only [a12ToPos, V3.smul]
+    ext <;> simp only [add_x, add_y, add_z] <;> ring
+  unfold otherBasisToA12?
+  rw [e]
+  exact (a12_pos_inverse A1 A2 h).1 _
+
 /-- data-model round trip: writing the record with unit factors and reading it back is the identity. -/
 theorem model_roundtrip (ue ul : K) (hue : ue ≠ 0) (hul : ul ≠ 0) (g : GsfRecord K) :
     ofModel ue ul (toModel ue ul g) = g := by
@@ -368,6 +382,46 @@ theorem elastic_shift_invariant (lg : K → K) (pi : K) (Kt : M3 K) (cdiff : Boo
     (c : V3 K) : elasticEnergy lg pi Kt cdiff x (d.map (· + c)) = elasticEnergy lg pi Kt cdiff x d := by
   unfold elasticEnergy
   rw [density_shift_invariant]
+
+/-- the energy-coefficient tensor stays symmetric in the `[m, n, ξ]` frame (for ANY `M`), so the hypothesis of
+    `elastic_symmetric_quadratic` is met by the object's tensor whenever the Volterra solution's is symmetric;
+    and the long-range quadratic form is frame independent for an orthogonal `M` (`Mᵀ M = 1`). -/
+theorem frameK_symmetric (M Kv : M3 K) (hK : Kv.transpose = Kv) :
+    (frameK M Kv).transpose = frameK M Kv ∧
+    (M3.mul M.transpose M = ⟨⟨1, 0, 0⟩, ⟨0, 1, 0⟩, ⟨0, 0, 1⟩⟩ → ∀ b : V3 K, kform (frameK M Kv) (frameB M b) (frameB M b) = kform Kv b b) := by
+  obtain ⟨⟨k00, k01, k02⟩, ⟨k10, k11, k12⟩, ⟨k20, k21, k22⟩⟩ := Kv
+  obtain ⟨⟨m00, m01, m02⟩, ⟨m10, m11, m12⟩, ⟨m20, m21, m22⟩⟩ := M
+  simp only [M3.transpose, M3.mk.injEq, V3.mk.injEq] at hK
+  obtain ⟨⟨-, h10, h20⟩, ⟨-, -, h21⟩, -⟩ := hK
+  have e10 : k01 = k10 := h10.symm
+  have e20 : k02 = k20 := h20.symm
+  have e21 : k12 = k21 := h21.symm
+  subst e10 e20 e21
+  constructor
+  · apply M3.ext <;> apply V3.ext <;> simp only [frameK, M3.mul, M3.transpose, M3.vecMul] <;> ring
+  · intro hM b
+    obtain ⟨b0, b1, b2⟩ := b
+    simp only [M3.mul, M3.transpose, M3.vecMul, M3.mk.injEq, V3.mk.injEq] at hM
+    obtain ⟨⟨e00, e01, e02⟩, ⟨e10, e11, e12⟩, ⟨e20, e21, e22⟩⟩ := hM
+    simp only [kform, frameK, frameB, M3.mul, M3.transpose, M3.vecMul, M3.mulVec, V3.dot]
+    -- (M b)·(M K Mᵀ)·(M b) = (Mᵀ M b)·K·(Mᵀ M b)
+    have c0 : m00 * (m00 * b0 + m01 * b1 + m02 * b2) + m10 * (m10 * b0 + m11 * b1 + m12 * b2)
+        + m20 * (m20 * b0 + m21 * b1 + m22 * b2) = b0 := by linear_combination b0 * e00 + b1 * e01 + b2 * e02
+    have c1 : m01 * (m00 * b0 + m01 * b1 + m02 * b2) + m11 * (m10 * b0 + m11 * b1 + m12 * b2)
+        + m21 * (m20 * b0 + m21 * b1 + m22 * b2) = b1 := by linear_combination b0 * e10 + b1 * e11 + b2 * e12
+    have c2 : m02 * (m00 * b0 + m01 * b1 + m02 * b2) + m12 * (m10 * b0 + m11 * b1 + m12 * b2)
+        + m22 * (m20 * b0 + m21 * b1 + m22 * b2) = b2 := by linear_combination b0 * e20 + b1 * e21 + b2 * e22
+    set u0 := m00 * b0 + m01 * b1 + m02 * b2
+    set u1 := m10 * b0 + m11 * b1 + m12 * b2
+    set u2 := m20 * b0 + m21 * b1 + m22 * b2
+    have key : ∀ x0 x1 x2 : K, x0 = b0 → x1 = b1 → x2 = b2 →
+        (x0 * k00 + x1 * k01 + x2 * k02) * x0 + (x0 * k01 + x1 * k11 + x2 * k12) * x1
+          + (x0 * k02 + x1 * k12 + x2 * k22) * x2
+        = (b0 * k00 + b1 * k01 + b2 * k02) * b0 + (b0 * k01 + b1 * k11 + b2 * k12) * b1
+          + (b0 * k02 + b1 * k12 + b2 * k22) * b2 := by
+      intro x0 x1 x2 h0 h1 h2; rw [h0, h1, h2]
+    rw [← key _ _ _ c0 c1 c2]
+    ring
 
 /-- `total_energy` is the sum of the six documented terms. -/
 theorem total_is_sum (lg : K → K) (gam : V3 K → K) (s : Settings K) (x : List K) (d : List (V3 K)) :
